@@ -17,11 +17,66 @@ Inductive expr :=
 | EQuot (a b : expr)                    (* Quotient(numerator, denominator) *)
 | EPow (a b : expr)                     (* Power(base, exponent) *)
 | ECall (f : string) (args : list expr) (* Call(Variable(f), parameters) *)
+| ECallKw (f : string) (args : list expr) (kw : list (string * expr))
+                                        (* CallWithKwargs(Variable(f), parameters, kw_parameters):
+                                           keyword names and values in the iteration order of the
+                                           mapping (insertion order); a class of its own, never
+                                           equal to a Call, even with no keyword at all *)
 | ENot (a : expr).                      (* LogicalNot(child): stands for the unary nodes whose
                                            CombineMapper method recurses without calling combine
                                            (map_logical_not, map_bitwise_not, map_lookup,
                                            map_common_subexpression) *)
 
+(* identity of terms (order of keyword arguments included): used to compare a model outcome
+   with the recorded outcome of the implementation *)
+Fixpoint expr_same (a b : expr) {struct a} : bool :=
+  match a, b with
+  | EInt x, EInt y => Z.eqb x y
+  | EVar x, EVar y => String.eqb x y
+  | ESum l, ESum m =>
+      (fix go (l m : list expr) : bool :=
+         match l, m with
+         | [], [] => true
+         | x :: l', y :: m' => expr_same x y && go l' m'
+         | _, _ => false
+         end) l m
+  | EProd l, EProd m =>
+      (fix go (l m : list expr) : bool :=
+         match l, m with
+         | [], [] => true
+         | x :: l', y :: m' => expr_same x y && go l' m'
+         | _, _ => false
+         end) l m
+  | EQuot a1 a2, EQuot b1 b2 => expr_same a1 b1 && expr_same a2 b2
+  | EPow a1 a2, EPow b1 b2 => expr_same a1 b1 && expr_same a2 b2
+  | ECall f l, ECall g m =>
+      String.eqb f g &&
+      (fix go (l m : list expr) : bool :=
+         match l, m with
+         | [], [] => true
+         | x :: l', y :: m' => expr_same x y && go l' m'
+         | _, _ => false
+         end) l m
+  | ECallKw f l kw, ECallKw g m kw2 =>
+      String.eqb f g &&
+      (fix go (l m : list expr) : bool :=
+         match l, m with
+         | [], [] => true
+         | x :: l', y :: m' => expr_same x y && go l' m'
+         | _, _ => false
+         end) l m &&
+      (fix gok (l m : list (string * expr)) : bool :=
+         match l, m with
+         | [], [] => true
+         | (k1, x) :: l', (k2, y) :: m' => String.eqb k1 k2 && expr_same x y && gok l' m'
+         | _, _ => false
+         end) kw kw2
+  | ENot x, ENot y => expr_same x y
+  | _, _ => false
+  end.
+
+(* pymbolic __eq__ / __hash__ (keys of the is_constant dictionary): structural, except that the
+   keyword arguments of a call form a mapping, compared without regard to order *)
 Fixpoint expr_eqb (a b : expr) {struct a} : bool :=
   match a, b with
   | EInt x, EInt y => Z.eqb x y
@@ -50,6 +105,22 @@ Fixpoint expr_eqb (a b : expr) {struct a} : bool :=
          | x :: l', y :: m' => expr_eqb x y && go l' m'
          | _, _ => false
          end) l m
+  | ECallKw f l kw, ECallKw g m kw2 =>
+      (* kw_parameters is a mapping: equal iff same size and same value under every key,
+         whatever the insertion order (for lists without repeated keys -- the only ones a
+         Python dict can hold -- that is: each entry of either list has a partner in the other) *)
+      String.eqb f g &&
+      (fix go (l m : list expr) : bool :=
+         match l, m with
+         | [], [] => true
+         | x :: l', y :: m' => expr_eqb x y && go l' m'
+         | _, _ => false
+         end) l m &&
+      Nat.eqb (List.length kw) (List.length kw2) &&
+      forallb (fun kv1 => existsb (fun kv2 => String.eqb (fst kv1) (fst kv2) &&
+                                             expr_eqb (snd kv1) (snd kv2)) kw2) kw &&
+      forallb (fun kv2 => existsb (fun kv1 => String.eqb (fst kv1) (fst kv2) &&
+                                             expr_eqb (snd kv1) (snd kv2)) kw) kw2
   | ENot x, ENot y => expr_eqb x y
   | _, _ => false
   end.
@@ -62,6 +133,7 @@ Fixpoint names (e : expr) : list string :=
   | ESum l | EProd l => flat_map names l
   | EQuot a b | EPow a b => names a ++ names b
   | ECall f args => f :: flat_map names args
+  | ECallKw f args kw => f :: flat_map names args ++ flat_map (fun kv => names (snd kv)) kw
   | ENot a => names a
   end.
 
@@ -73,6 +145,7 @@ Fixpoint subs (e : expr) : list expr :=
        | ESum l | EProd l => flat_map subs l
        | EQuot a b | EPow a b => subs a ++ subs b
        | ECall f args => EVar f :: flat_map subs args
+       | ECallKw f args kw => EVar f :: flat_map subs args ++ flat_map (fun kv => subs (snd kv)) kw
        | ENot a => subs a
        end.
 
@@ -83,6 +156,7 @@ Fixpoint wfb (e : expr) : bool :=
   | ESum l | EProd l => negb (match l with [] => true | _ => false end) && forallb wfb l
   | EQuot a b | EPow a b => wfb a && wfb b
   | ECall _ args => forallb wfb args
+  | ECallKw _ args kw => forallb wfb args && forallb (fun kv => wfb (snd kv)) kw
   | ENot a => wfb a
   end.
 
@@ -92,6 +166,8 @@ Fixpoint size (e : expr) : nat :=
   | ESum l | EProd l => S (fold_right (fun x n => size x + n) 0 l)
   | EQuot a b | EPow a b => S (size a + size b)
   | ECall _ args => S (fold_right (fun x n => size x + n) 0 args)
+  | ECallKw _ args kw => S (fold_right (fun x n => size x + n) 0 args +
+                            fold_right (fun kv n => size (snd kv) + n) 0 kw)
   | ENot a => S (size a)
   end.
 
@@ -102,6 +178,9 @@ Section Eval.
   Variable qop pop : Z -> Z -> Z.        (* Quotient, Power *)
   Variable nop : Z -> Z.                 (* LogicalNot *)
   Variable F : string -> list Z -> Z.    (* function symbols (pure: assumption A2) *)
+  (* calls with keyword arguments: a pure function of the symbol, the positional values and the
+     (keyword, value) pairs as written *)
+  Variable Fk : string -> list Z -> list (string * Z) -> Z.
 
   Definition zsum (l : list Z) : Z := fold_right Z.add 0%Z l.
   Definition zprod (l : list Z) : Z := fold_right Z.mul 1%Z l.
@@ -115,6 +194,7 @@ Section Eval.
     | EQuot a b => qop (eval rho a) (eval rho b)
     | EPow a b => pop (eval rho a) (eval rho b)
     | ECall f args => F f (map (eval rho) args)
+    | ECallKw f args kw => Fk f (map (eval rho) args) (map (fun kv => (fst kv, eval rho (snd kv))) kw)
     | ENot a => nop (eval rho a)
     end.
 
@@ -143,6 +223,7 @@ Fixpoint subst (asg : list (string * expr)) (e : expr) : expr :=
   | EQuot a b => EQuot (subst asg a) (subst asg b)
   | EPow a b => EPow (subst asg a) (subst asg b)
   | ECall f args => ECall f (map (subst asg) args)
+  | ECallKw f args kw => ECallKw f (map (subst asg) args) (map (fun kv => (fst kv, subst asg (snd kv))) kw)
   | ENot a => ENot (subst asg a)
   end.
 
@@ -192,6 +273,8 @@ Section IsConst.
     | ESum l | EProd l => forallb isconst l
     | EQuot a b | EPow a b => isconst a && isconst b
     | ECall f args => negb (mem f free) && forallb isconst args
+    | ECallKw f args kw =>
+        negb (mem f free) && forallb isconst args && forallb (fun kv => isconst (snd kv)) kw
     | ENot a => isconst a
     end.
 End IsConst.
@@ -247,6 +330,13 @@ Section Finder.
       | [] => Ok ([], s)
       | c :: l' => '(rc, s') <- frec c s ;; '(rs, s'') <- fgo_list l' s' ;; Ok (rc :: rs, s'')
       end.
+    (* [self.rec(child) for child in expr.kw_parameters.values()] *)
+    Fixpoint fgo_kw (kw : list (string * expr)) (s : fstate) : res (list bool * fstate) :=
+      match kw with
+      | [] => Ok ([], s)
+      | kv :: kw' =>
+          '(rc, s') <- frec (snd kv) s ;; '(rs, s'') <- fgo_kw kw' s' ;; Ok (rc :: rs, s'')
+      end.
   End Children.
 
   (* fmap e s: dispatch on e AFTER rec has pushed it (rec e s = fmap e (push e s)) *)
@@ -274,6 +364,13 @@ Section Finder.
         '(rf, s1) <- fvar f (push (EVar f) s) ;;
         '(rs, s2) <- fgo_list (fun c s => fmap c (push c s)) args s1 ;;
         combine_post (rf :: rs) s2
+    | ECallKw f args kw =>
+        (* CombineMapper.map_call_with_kwargs: one tuple (function, *parameters,
+           *kw_parameters.values()), all visited before combine pops *)
+        '(rf, s1) <- fvar f (push (EVar f) s) ;;
+        '(rs, s2) <- fgo_list (fun c s => fmap c (push c s)) args s1 ;;
+        '(rk, s3) <- fgo_kw (fun c s => fmap c (push c s)) kw s2 ;;
+        combine_post (rf :: rs ++ rk) s3
     | ENot a =>
         if unary_combines
         then '(ra, s1) <- fmap a (push a s) ;; combine_post [ra] s1
@@ -354,6 +451,13 @@ Section Collapser.
       | [] => Ok ([], s)
       | c :: r => '(c', s1) <- rec c s ;; '(r', s2) <- cgo r s1 ;; Ok (c' :: r', s2)
       end.
+    (* {key: self.rec(val) for key, val in expr.kw_parameters.items()} *)
+    Fixpoint cgo_kw (kw : list (string * expr)) (s : cstate) : res (list (string * expr) * cstate) :=
+      match kw with
+      | [] => Ok ([], s)
+      | kv :: r =>
+          '(c', s1) <- rec (snd kv) s ;; '(r', s2) <- cgo_kw r s1 ;; Ok ((fst kv, c') :: r', s2)
+      end.
   End CChildren.
 
   (* cmap = IdentityMapper dispatch with map_sum/map_product = map_commut_assoc *)
@@ -371,6 +475,12 @@ Section Collapser.
     | ECall f args =>
         (* self.rec(expr.function): a Variable is atomic, returned unchanged *)
         '(args', s') <- cgo (crec_gen cmap) args s ;; Ok (ECall f args', s')
+    | ECallKw f args kw =>
+        (* IdentityMapper.map_call_with_kwargs: function, then the parameters, then the keyword
+           values in the order of the mapping; rebuilt with the same keys in the same order *)
+        '(args', s1) <- cgo (crec_gen cmap) args s ;;
+        '(kw', s2) <- cgo_kw (crec_gen cmap) kw s1 ;;
+        Ok (ECallKw f args' kw', s2)
     | ENot a => '(a', s1) <- crec_gen cmap a s ;; Ok (ENot a', s1)
     end.
 
@@ -412,7 +522,7 @@ Definition fresh_same (_ : nat) : string := "var".   (* contract-violating suppl
 Fixpoint asg_eqb (a b : list (string * expr)) : bool :=
   match a, b with
   | [], [] => true
-  | (x, c) :: a', (y, d) :: b' => String.eqb x y && expr_eqb c d && asg_eqb a' b'
+  | (x, c) :: a', (y, d) :: b' => String.eqb x y && expr_same c d && asg_eqb a' b'
   | _, _ => false
   end.
 
@@ -431,7 +541,7 @@ Definition outcome_of (r : res (expr * list (string * expr) * nat)) : outcome :=
 
 Definition outcome_eqb (a b : outcome) : bool :=
   match a, b with
-  | OOk e asg, OOk e' asg' => expr_eqb e e' && asg_eqb asg asg'
+  | OOk e asg, OOk e' asg' => expr_same e e' && asg_eqb asg asg'
   | OExc x, OExc y => String.eqb x y
   | _, _ => false
   end.
